@@ -324,7 +324,29 @@ impl<'a> Fields<'a> {
                         }
                     });
 
-                    self.0.push(resolve_fut);
+                    // A field error at a nullable field nulls that field only.
+                    let nullable = ctx
+                        .schema_env
+                        .registry
+                        .types
+                        .get(T::type_name().as_ref())
+                        .and_then(|ty| ty.field_by_name(field.node.name.node.as_str()))
+                        .is_some_and(|meta_field| !meta_field.ty.ends_with('!'));
+                    if nullable {
+                        let ctx = ctx.clone();
+                        let field_name = field.node.response_key().node.clone();
+                        self.0.push(Box::pin(async move {
+                            match resolve_fut.await {
+                                Ok(res) => Ok(res),
+                                Err(err) => {
+                                    ctx.add_error(err);
+                                    Ok((field_name, Value::Null))
+                                }
+                            }
+                        }));
+                    } else {
+                        self.0.push(resolve_fut);
+                    }
                 }
                 selection => {
                     let (type_condition, selection_set) = match selection {
